@@ -1,6 +1,7 @@
 import Carquet.Util
 import Carquet.Spec.File
 import Driver.Ops.FileWrite
+import Carquet.Impl.WriterSpecTable
 /-
 Driver op `wrspec` (harness/ops_filespec.c): a write history executed by the real writer; the
 file it produced is handed to the independent reader of the Spec.
@@ -12,6 +13,10 @@ the maximal runs of batches between `rg` steps; a column's entries are the rows 
 in order; OPTIONAL columns carry definition levels 0/1 and the values are dense; a NULL
 def_levels pointer means all present).  There is no model check here: this op ties nothing to
 an Impl model, it evaluates the property on what the real code produced.
+
+The table compared with is `Impl.Writer.specTableOf cols ops` — the very function of the theorem
+`C05_spec_reader_accepts_writer` — so the run-time check and the theorem speak about the same
+table; `intendedRowGroups` (the rule above, written independently) is kept as a cross-check.
 -/
 namespace Driver.Ops.FileSpec
 open Carquet Carquet.Util Carquet.Impl.Writer Carquet.Spec Carquet.Spec.File
@@ -61,7 +66,11 @@ def judge (cols : List Col) (ops : List Op) (file : List UInt8) (oracle : Oracle
      ("spec_columns", (match columnsOf t.schema with
                        | .ok ls => ls == cols.map leafOfCol
                        | .error _ => false)),
-     ("spec_table", t.rowGroups == intendedRowGroups cols ops)]
+     -- the table of the theorem `C05_spec_reader_accepts_writer` (Properties/C05/SpecWriter.lean):
+     -- schema tree and row groups of `Impl.Writer.specTableOf`
+     ("spec_table", Table.beq t (specTableOf cols ops)),
+     -- the same row groups by the rule of harness/ops_file.c (independent formulation, cross-check)
+     ("spec_table_rule", t.rowGroups == intendedRowGroups cols ops)]
 
 def handle (l : Line) : Option Verdict :=
   match l.op with
